@@ -23,7 +23,9 @@ import (
 type remotePins struct {
 	keys     []bufmodule.ModuleKey
 	byCommit map[uuid.UUID]bufmoduletesting.OmniProvider
-	newest   uuid.UUID
+	// newest: the commit(s) with the latest create time - two of them when the two latest commits
+	// were created at the same instant (any one of them may win, but the same one every time)
+	newest map[uuid.UUID]bool
 }
 
 func (r *remotePins) find(id uuid.UUID) (bufmoduletesting.OmniProvider, error) {
@@ -88,6 +90,16 @@ func (m *bsim) newRemotePins() *remotePins {
 	r := &remotePins{byCommit: map[uuid.UUID]bufmoduletesting.OmniProvider{}}
 	var newestTime time.Time
 	times := m.tp.Perm("pintimes", n)
+	if m.tp.Draw("pintie", 3) == 2 {
+		// the two latest commits carry the same create time
+		for i := range times {
+			if times[i] == n-2 {
+				times[i] = n - 1
+			}
+		}
+		m.s.Probe("pinned-commits-with-equal-create-time")
+	}
+	r.newest = map[uuid.UUID]bool{}
 	for i := 0; i < n; i++ {
 		var id uuid.UUID
 		copy(id[:], m.tp.Bytes("pincommit", 16))
@@ -111,7 +123,10 @@ func (m *bsim) newRemotePins() *remotePins {
 		r.keys = append(r.keys, keys[0])
 		r.byCommit[id] = p
 		if created.After(newestTime) {
-			newestTime, r.newest = created, id
+			newestTime, r.newest = created, map[uuid.UUID]bool{}
+		}
+		if created.Equal(newestTime) {
+			r.newest[id] = true
 		}
 	}
 	return r
@@ -148,7 +163,7 @@ func (m *bsim) remoteOutput(ctx context.Context) (string, error) {
 			return "", err
 		}
 		lines = append(lines, fmt.Sprintf("%s commit=%s %s", moduleLabel(mod), uuidutil.ToDashless(mod.CommitID()), d.String()))
-		if mod.FullName() != nil && mod.CommitID() != r.newest {
+		if mod.FullName() != nil && !r.newest[mod.CommitID()] {
 			lines = append(lines, "NOT-NEWEST")
 		}
 	}
